@@ -349,6 +349,18 @@ Theorem own_record_clause_refuted_when_keyed_by_update_height :
   finish_with true [d1; d2] 7 0 9 1 12 = Some [d1; settle d2 1 12].
 Proof. exact lookup_by_update_height_hits_another_record. Qed.
 
+(** 19. T: writer and reader of the processed-tx store derive the key by the SAME expression from
+    the SAME decoded object.  The key routerAttester's deferred function records a used transaction
+    under, and the key attestTransactionIntegrity looks up, each resolved through the callee's
+    parameter and the caller's locals: both are tx.Hash().Bytes() of the transaction DECODED from the
+    proof (the model's [tx_hash t :: processed] / [mem_hash (tx_hash t)] on one and the same [t]).
+    A key computed from the undecoded bytes (equal for type 0/1/2 transactions, different for a blob
+    transaction carried with its sidecar) breaks this. *)
+Theorem processed_key_written_is_the_key_read :
+  G.processed_key_written = G.processed_key_read /\
+  G.processed_key_read = "<proof>.GetTX().Hash().Bytes()"%string.
+Proof. split; reflexivity. Qed.
+
 (** 7. T — over the argument lists extracted from eth_txable.go: every action-bearing field is
     packed, and equal expected calls mean the same call. *)
 Theorem packed_covers_action_fields : forall k f, In f (required k) -> In f (packed_of k).
@@ -400,3 +412,4 @@ Print Assumptions two_thirds_clause_refuted_when_status_is_not_hashed.
 Print Assumptions every_attester_runs_all_guards.
 Print Assumptions user_deployment_success_lands_on_own_record.
 Print Assumptions own_record_clause_refuted_when_keyed_by_update_height.
+Print Assumptions processed_key_written_is_the_key_read.
